@@ -388,7 +388,9 @@ func c19Ops() []*c19Op {
 		a := c19Ints(arg)
 		e.out(e.al.Consensus(c19B(a[0]), c19B(a[1])), nil)
 	})
-	q("Transpose", true, nil, nil, func(e *c19Env, _ string) { e.out(e.al.Transpose()) })
+	// transposition and bootstrap are in the statement's list of copy-producing operations, and the quantifier has
+	// every such operation "followed by arbitrary in-place mutations of the returned object": step 2 applies
+	q("Transpose", true, nil, nil, func(e *c19Env, _ string) { e.out(e.al.Transpose()) }).Own = true
 	q("Unalign", false, nil, nil, func(e *c19Env, _ string) { e.out(e.in.Unalign(), nil) })
 	q("CodonAlign", true, func(in *c19Inst) bool { return c19HasCell(in) && c19IsAA(in) }, nil, func(e *c19Env, _ string) {
 		nt := align.NewSeqBag(align.NUCLEOTIDS)
@@ -550,7 +552,8 @@ func c19Ops() []*c19Op {
 
 	// ------------------------------------------------------------ randomised producers of new objects
 	small := func(in *c19Inst) bool { return c19HasCell(in) && in.L() <= 6 && in.n() <= 4 }
-	bs := q("BuildBootstrap", true, small, func(in *c19Inst, _ c19Level) []string {
+	// (also on rows without any site: the replicate of a site-less alignment is a new site-less alignment)
+	bs := q("BuildBootstrap", true, func(in *c19Inst) bool { return c19HasRow(in) && in.L() <= 6 && in.n() <= 4 }, func(in *c19Inst, _ c19Level) []string {
 		if in.L() > 3 {
 			return []string{"50"}
 		}
@@ -558,7 +561,7 @@ func c19Ops() []*c19Op {
 	}, func(e *c19Env, arg string) {
 		e.out(e.al.BuildBootstrap(float64(c19Ints(arg)[0])/100), nil)
 	})
-	bs.Rand = true
+	bs.Rand, bs.Own = true, true
 	sm := q("Sample", true, small, func(in *c19Inst, _ c19Level) []string { return c19Range(in.n() + 1)[1:] }, func(e *c19Env, arg string) {
 		e.out(e.al.Sample(c19Ints(arg)[0]))
 	})
